@@ -9,6 +9,7 @@ the user-code events, `C06_log_full` says that whatever follows the chain's even
 handler's; `C06_handle_with_filter_path` is the counterpart of `C06_error_path` for that chain.
 -/
 import Restful.Lemmas.Chain
+import Restful.Lemmas.ChainAll
 import Restful.Model.Conc
 import Restful.Gen.Facts
 import Restful.Lemmas.StateShape
@@ -453,6 +454,338 @@ example : (Serve.serveSeq E0 cfg .dispatch { acquired := 5, released := 5 } [sr1
   C06_fresh E0 cfg .dispatch _ _
 
 end C06Example
+
+/-! ## every filter kind, every script
+
+`C06_closed_form` / `C06_target_iff` above assume filters that pass or stop and scripts that do not
+panic.  The theorems below make no such assumption: `.pass`, `.stop`, `.replace` (a new Request and a
+new Response are passed on), `.middle` (`HttpMiddlewareHandlerToFilter`), panics anywhere.  They are
+statements about `Spec.chainLog` — the definition `C06_log` ties the model to and the driver
+evaluates on every real log — and, through `C06_log_full`, about the model's log itself.
+Proofs: `Lemmas/ChainAll.lean`. -/
+
+/-- `Spec.passesOn` is exactly the condition under which `Spec.chainLog` descends into the rest of
+    the chain: the kind calls the chain (pass, replace, middle) and the first part of the filter does
+    not panic — whatever the attributes it is entered with -/
+theorem C06_passesOn_iff (f : Serve.Filter) (attrs : List (Str × Str)) :
+    Spec.passesOn f = true ↔
+      (f.kind = .pass ∨ f.kind = .replace ∨ f.kind = .middle) ∧ (Spec.attrsAfter f.pre attrs).2 = false := by
+  rw [Spec.attrsAfter_panics]
+  unfold Spec.passesOn
+  cases f.kind <;> simp
+
+/-- (6) the SHAPE of every chain's log.  It is the way down — start events only: `Spec.descent`, the
+    filters in list order up to and including the first that does not pass on, then the target iff
+    there is none — followed by the way back — post events only, innermost first: a prefix of
+    `Spec.returners` (the filters that passed on and the one that stopped), the whole of it when no
+    panic leaves the chain -/
+theorem C06_shape_all (fs : List (Serve.Stage × Serve.Filter)) (t : Serve.Target) (cx : Serve.Ctx) :
+    ∃ asc, (Spec.chainLog fs t cx).1 = Spec.descent fs t cx ++ asc ∧
+      (∀ ev ∈ Spec.descent fs t cx, ev.post = false) ∧ (∀ ev ∈ asc, ev.post = true) ∧
+      asc.map (·.stage) <+: Spec.returners fs ∧
+      ((Spec.chainLog fs t cx).2.2 = false → asc.map (·.stage) = Spec.returners fs) := by
+  obtain ⟨asc, h1, h2, h3, h4⟩ := Serve.Chain.chainLog_shape fs t cx
+  exact ⟨asc, h1, Serve.Chain.descent_post fs t cx, h2, h3, h4⟩
+
+/-- (6) THE IFF CLAUSE for all filter kinds and all scripts (stage labels of filters differ from the
+    target's: `C06_served_labels`): the target's start event occurs in the log iff EVERY filter of the
+    chain passes control on — and it never occurs twice -/
+theorem C06_target_iff_all (fs : List (Serve.Stage × Serve.Filter)) (t : Serve.Target) (cx : Serve.Ctx)
+    (hd : ∀ sf ∈ fs, sf.1 ≠ t.stage) :
+    ((t.stage, false) ∈ (Spec.chainLog fs t cx).1.map (fun ev => (ev.stage, ev.post)) ↔
+      ∀ sf ∈ fs, Spec.passesOn sf.2 = true) ∧
+    ((Spec.chainLog fs t cx).1.map (fun ev => (ev.stage, ev.post))).count (t.stage, false) ≤ 1 := by
+  refine ⟨Serve.Chain.chainLog_target_iff fs t cx hd, ?_⟩
+  rw [Serve.Chain.chainLog_target_count fs t cx hd]
+  split <;> decide
+
+/-- (6) "exactly once … if and only if": the number of times the target starts -/
+theorem C06_target_count_all (fs : List (Serve.Stage × Serve.Filter)) (t : Serve.Target) (cx : Serve.Ctx)
+    (hd : ∀ sf ∈ fs, sf.1 ≠ t.stage) :
+    ((Spec.chainLog fs t cx).1.map (fun ev => (ev.stage, ev.post))).count (t.stage, false) =
+      if fs.all (fun sf => Spec.passesOn sf.2) then 1 else 0 :=
+  Serve.Chain.chainLog_target_count fs t cx hd
+
+/-- (6) "a filter that does not pass control on stops everything after it", all kinds and scripts:
+    when the filters `pre` pass on and `f` does not (it stops, or its first part panics), whatever
+    follows `f` in the chain (`rest`, the target) leaves no event.  The log is the start events of
+    `pre` and `f`, in this order, then post events only: `f`'s own iff it stopped rather than
+    panicked (its code after the decision not to call the chain), then those of the filters BEFORE
+    it, in reverse order — cut short when a panic is unwinding, all of them otherwise -/
+theorem C06_blocked_all (pre : List (Serve.Stage × Serve.Filter)) (st : Serve.Stage) (f : Serve.Filter)
+    (rest : List (Serve.Stage × Serve.Filter)) (t : Serve.Target) (cx : Serve.Ctx)
+    (hpre : ∀ sf ∈ pre, Spec.passesOn sf.2 = true) (hf : Spec.passesOn f = false) :
+    ∃ starts asc, (Spec.chainLog (pre ++ (st, f) :: rest) t cx).1 = starts ++ asc ∧
+      starts.map (fun ev => (ev.stage, ev.post)) = (pre.map (fun sf => (sf.1, false))) ++ [(st, false)] ∧
+      (∀ ev ∈ asc, ev.post = true) ∧
+      asc.map (·.stage) <+: (if Spec.noPanic f.pre then [st] else []) ++ (pre.map (·.1)).reverse ∧
+      ((Spec.chainLog (pre ++ (st, f) :: rest) t cx).2.2 = false →
+        asc.map (·.stage) = (if Spec.noPanic f.pre then [st] else []) ++ (pre.map (·.1)).reverse) :=
+  Serve.Chain.chainLog_blocked pre st f rest t cx hpre hf
+
+/-- (6) THE ORDER CLAUSE for all kinds and scripts: the stages that start, in the order they start,
+    are a prefix of the chain's label list followed by the target — the first `firstBlocked fs + 1`
+    entries, `firstBlocked fs` being the index of the first filter that does not pass on.  With
+    `C06_levels` (container ++ service ++ route labels, each in registration order) this is
+    "container, service, route, each in registration order": `C06_order_all_routed` -/
+theorem C06_order_all (fs : List (Serve.Stage × Serve.Filter)) (t : Serve.Target) (cx : Serve.Ctx) :
+    ((Spec.chainLog fs t cx).1.filter (fun ev => !ev.post)).map (·.stage) =
+      (fs.map (·.1) ++ [t.stage]).take (Spec.firstBlocked fs + 1) ∧
+    ((Spec.chainLog fs t cx).1.filter (fun ev => !ev.post)).map (·.stage) <+: fs.map (·.1) ++ [t.stage] ∧
+    (Spec.firstBlocked fs = fs.length ↔ ∀ sf ∈ fs, Spec.passesOn sf.2 = true) := by
+  have h : ((Spec.chainLog fs t cx).1.filter (fun ev => !ev.post)).map (·.stage) =
+      (fs.map (·.1) ++ [t.stage]).take (Spec.firstBlocked fs + 1) := by
+    rw [Serve.Chain.chainLog_starts, Serve.Chain.descent_stages]
+  exact ⟨h, by rw [h]; exact List.take_prefix _ _, Serve.Chain.firstBlocked_eq_length fs⟩
+
+/-- (6) THE PROPAGATION CLAUSE for all kinds combined: the k-th stage that starts is the k-th stage
+    of the chain and the Request/Response it is handed — attributes, path parameters, selected route
+    path, response wrappers — is `Spec.ctxAt fs cx k`: what the filters before it passed on, one
+    after the other (`C06_ctxAt_fold`) -/
+theorem C06_propagation_all (fs : List (Serve.Stage × Serve.Filter)) (t : Serve.Target) (cx : Serve.Ctx) :
+    (Spec.chainLog fs t cx).1.filter (fun ev => !ev.post) =
+      (List.range (Spec.firstBlocked fs + 1)).map (fun k =>
+        (⟨Spec.stageAt fs t k, false, (Spec.ctxAt fs cx k).attrs, (Spec.ctxAt fs cx k).params,
+          (Spec.ctxAt fs cx k).selPath, (Spec.ctxAt fs cx k).wrappers⟩ : Serve.Event)) := by
+  rw [Serve.Chain.chainLog_starts, Serve.Chain.descent_closed]
+  rfl
+
+/-- `Spec.ctxAt` is the fold of the contexts passed on: the chain's own context for the first
+    stage; the stage after filter `k` receives what filter `k` makes of what it received — a pass
+    filter its own Request with the attributes its first part left; a replace filter a NEW Request
+    (its own attributes, no parameters, no selected path) and a NEW Response (one more wrapper); an
+    adapted middleware the same Request and a wrapped writer -/
+theorem C06_ctxAt_fold (fs : List (Serve.Stage × Serve.Filter)) (cx : Serve.Ctx) :
+    Spec.ctxAt fs cx 0 = cx ∧
+    (∀ k, Spec.ctxAt fs cx k = (fs.take k).foldl (fun c sf => Serve.Chain.innerCtx sf.2 c) cx) ∧
+    (∀ k (hk : k < fs.length), Spec.ctxAt fs cx (k + 1) =
+      (match fs[k].2.kind with
+       | .replace => { attrs := [("who".toList, (toString fs[k].2.id).toList)], params := [], selPath := [],
+                       wrappers := fs[k].2.id :: (Spec.ctxAt fs cx k).wrappers }
+       | .middle => { Spec.ctxAt fs cx k with attrs := (Spec.attrsAfter fs[k].2.pre (Spec.ctxAt fs cx k).attrs).1,
+                                              wrappers := fs[k].2.id :: (Spec.ctxAt fs cx k).wrappers }
+       | _ => { Spec.ctxAt fs cx k with attrs := (Spec.attrsAfter fs[k].2.pre (Spec.ctxAt fs cx k).attrs).1 })) := by
+  refine ⟨by cases fs <;> rfl, Serve.Chain.ctxAt_foldl fs cx, ?_⟩
+  intro k hk
+  rw [Serve.Chain.ctxAt_succ fs cx k hk]
+  rfl
+
+/-- `Spec.stageAt fs t k` is the k-th entry of the chain's label list followed by the target -/
+theorem C06_stageAt (fs : List (Serve.Stage × Serve.Filter)) (t : Serve.Target) (k : Nat) :
+    Spec.stageAt fs t k = ((fs.map (·.1) ++ [t.stage])[k]?).getD t.stage :=
+  Serve.Chain.stageAt_eq fs t k
+
+/-- (6)+(1) ON THE MODEL, every configuration, entry point, ledger and request: a stage that is
+    neither a filter nor the recover handler — a route function, the plain handler, the service-error
+    writer — starts iff it is the target of the chain the request goes through (`Spec.chainOf`) and
+    EVERY filter of that chain passes control on; and it never starts twice (no assumption on
+    filter ids) -/
+theorem C06_target_iff_served (E : ReEnv) (cfg : Serve.Cfg) (e : Serve.Entry) (w : Serve.World) (sr : Serve.SReq)
+    (st : Serve.Stage) (hf : st.isFilter = false) (hr : st ≠ .recover) :
+    ((st, false) ∈ (Serve.serve E cfg e w sr).log.map (fun ev => (ev.stage, ev.post)) ↔
+      ∃ fs t cx, Spec.chainOf E cfg e sr = some (fs, t, cx) ∧ t.stage = st ∧ ∀ sf ∈ fs, Spec.passesOn sf.2 = true) ∧
+    ((Serve.serve E cfg e w sr).log.map (fun ev => (ev.stage, ev.post))).count (st, false) ≤ 1 :=
+  ⟨Serve.Chain.serve_target_iff E cfg e w sr st hf hr, Serve.Chain.serve_target_once E cfg e w sr st hf hr⟩
+
+/-- (6)+(1) the route function: it runs (exactly once) iff the request came in through
+    `Container.Dispatch` or `Container.ServeHTTP`, routing selected this route, and every container
+    filter, every filter of the WebService and every filter of the route passes control on -/
+theorem C06_handler_iff (E : ReEnv) (cfg : Serve.Cfg) (e : Serve.Entry) (w : Serve.World) (sr : Serve.SReq) (rid : Nat) :
+    ((Serve.Stage.handler rid, false) ∈ (Serve.serve E cfg e w sr).log.map (fun ev => (ev.stage, ev.post)) ↔
+      (e = .dispatch ∨ e = .serveDispatch) ∧ sr.condPanic = none ∧
+      ∃ svc ps tag, routeTagged E cfg.routing sr.req = (.selected svc rid ps, tag) ∧
+        (∀ f ∈ cfg.cfilters, Spec.passesOn f = true) ∧ (∀ f ∈ (Serve.svcX cfg svc).filters, Spec.passesOn f = true) ∧
+        (∀ f ∈ (Serve.routeX cfg rid).filters, Spec.passesOn f = true)) ∧
+    ((Serve.serve E cfg e w sr).log.map (fun ev => (ev.stage, ev.post))).count (Serve.Stage.handler rid, false) ≤ 1 :=
+  ⟨Serve.Chain.serve_handler_iff E cfg e w sr rid,
+   Serve.Chain.serve_target_once E cfg e w sr (.handler rid) rfl (by intro h; cases h)⟩
+
+/-- (6)+(1) the plain `http.Handler`: it runs (exactly once) iff it was registered with `Handle`
+    (no filter applies) or with `HandleWithFilter` and every container filter passes control on -/
+theorem C06_plain_iff (E : ReEnv) (cfg : Serve.Cfg) (e : Serve.Entry) (w : Serve.World) (sr : Serve.SReq) :
+    ((Serve.Stage.plain 0, false) ∈ (Serve.serve E cfg e w sr).log.map (fun ev => (ev.stage, ev.post)) ↔
+      (e = .muxHandle ∨ e = .serveHandle) ∨
+      ((e = .muxHandleF ∨ e = .serveHandleF) ∧ ∀ f ∈ cfg.cfilters, Spec.passesOn f = true)) ∧
+    ((Serve.serve E cfg e w sr).log.map (fun ev => (ev.stage, ev.post))).count (Serve.Stage.plain 0, false) ≤ 1 :=
+  ⟨Serve.Chain.serve_plain_iff E cfg e w sr,
+   Serve.Chain.serve_target_once E cfg e w sr (.plain 0) rfl (by intro h; cases h)⟩
+
+/-- (6)+(1) order and propagation ON THE MODEL, every entry point: the start events of the model's
+    log are the stages of the chain `Spec.chainOf` selects, in chain order up to the first filter
+    that does not pass on, the k-th with the context `Spec.ctxAt fs cx k` — followed by nothing but
+    events of the recover handler -/
+theorem C06_starts_served (E : ReEnv) (cfg : Serve.Cfg) (e : Serve.Entry) (w : Serve.World) (sr : Serve.SReq)
+    (fs : List (Serve.Stage × Serve.Filter)) (t : Serve.Target) (cx : Serve.Ctx)
+    (h : Spec.chainOf E cfg e sr = some (fs, t, cx)) :
+    ∃ r : List Serve.Event, (∀ ev ∈ r, ev.stage = .recover) ∧
+      (Serve.serve E cfg e w sr).log.filter (fun ev => !ev.post) =
+        (List.range (Spec.firstBlocked fs + 1)).map (fun k =>
+          (⟨Spec.stageAt fs t k, false, (Spec.ctxAt fs cx k).attrs, (Spec.ctxAt fs cx k).params,
+            (Spec.ctxAt fs cx k).selPath, (Spec.ctxAt fs cx k).wrappers⟩ : Serve.Event)) ++ r ∧
+      ((Serve.serve E cfg e w sr).log.filter (fun ev => !ev.post)).map (·.stage) =
+        (fs.map (·.1) ++ [t.stage]).take (Spec.firstBlocked fs + 1) ++ r.map (·.stage) := by
+  obtain ⟨r, hr1, hr2⟩ := Serve.Chain.serve_starts E cfg e w sr fs t cx h
+  refine ⟨r, hr1, hr2, ?_⟩
+  rw [hr2, List.map_append, ← Serve.Chain.descent_closed fs t cx, Serve.Chain.descent_stages]
+
+/-- (6)+(3) the order clause for a routed request, all kinds and scripts: the stages that start are,
+    in this order, container filters, filters of the WebService, filters of the route — each level in
+    registration order — then the route function: the first `firstBlocked + 1` of them (all of them
+    iff every filter passes on), then nothing but the recover handler -/
+theorem C06_order_all_routed (E : ReEnv) (cfg : Serve.Cfg) (e : Serve.Entry) (he : e = .dispatch ∨ e = .serveDispatch)
+    (w : Serve.World) (sr : Serve.SReq) (svc rid : Nat) (ps : Params) (tag : String)
+    (hc : sr.condPanic = none) (hr : routeTagged E cfg.routing sr.req = (.selected svc rid ps, tag)) :
+    ∃ r : List Serve.Event, (∀ ev ∈ r, ev.stage = .recover) ∧
+      ((Serve.serve E cfg e w sr).log.filter (fun ev => !ev.post)).map (·.stage) =
+        (cfg.cfilters.map (fun f => Serve.Stage.cfilter f.id) ++ (Serve.svcX cfg svc).filters.map (fun f => Serve.Stage.sfilter f.id) ++
+          (Serve.routeX cfg rid).filters.map (fun f => Serve.Stage.rfilter f.id) ++ [Serve.Stage.handler rid]).take
+            (Spec.firstBlocked (Serve.allFilters cfg svc rid) + 1) ++ r.map (·.stage) := by
+  obtain ⟨selPath, hch⟩ := C06_routed_chain E cfg sr svc rid ps tag hc hr
+  have hch' : Spec.chainOf E cfg e sr =
+      some (Serve.allFilters cfg svc rid, ⟨.handler rid, (Serve.routeX cfg rid).script⟩, { params := ps, selPath := selPath }) := by
+    rcases he with rfl | rfl <;> exact hch
+  obtain ⟨r, hr1, _, hr3⟩ := C06_starts_served E cfg e w sr _ _ _ hch'
+  exact ⟨r, hr1, by rw [hr3, C06_levels]⟩
+
+/-! ### non-vacuity: a replace filter, a middleware filter, a stopping filter and a panicking filter in one table -/
+namespace C06AllExample
+open C06Example (E0 rd fl)
+
+/-- container filters: 1 replaces Request and Response (after setting an attribute on the OLD
+    Request), 2 is an adapted middleware (sets an attribute, wraps the writer); service filter 3
+    passes; route 1 (`/a/{i}`) has a passing route filter, route 2 (`/a/x`) one that stops, route 3
+    (`/a/y`) one whose first part panics — each followed by a filter that would pass -/
+def cfg : Serve.Cfg :=
+  { routing := { router := .curly, services := [{ id := 0, root := "/a".toList, routes := [rd 1 "GET" "/{i}", rd 2 "GET" "/x", rd 3 "GET" "/y"] }] }
+    cfilters := [fl 1 .replace [.setAttr "old".toList "1".toList], fl 2 .middle [.setAttr "m".toList "2".toList]]
+    svcs := [{ id := 0, filters := [fl 3 .pass] }]
+    routes := [{ id := 1, filters := [fl 5 .pass [.setAttr "r".toList "5".toList]], script := [.write "one".toList] },
+               { id := 2, filters := [fl 7 .stop [.writeHeader 403], fl 8 .pass], script := [.write "two".toList] },
+               { id := 3, filters := [fl 9 .pass [.panic "boom".toList], fl 10 .pass], script := [.write "three".toList] }] }
+
+def sr1 : Serve.SReq := { req := { method := "GET".toList, path := "/a/7".toList } }
+def sr2 : Serve.SReq := { req := { method := "GET".toList, path := "/a/x".toList } }
+def sr3 : Serve.SReq := { req := { method := "GET".toList, path := "/a/y".toList } }
+
+def pairs (r : Serve.Result) : List (Serve.Stage × Bool) := r.log.map (fun ev => (ev.stage, ev.post))
+
+/-- which filters pass control on: the replace filter, the middleware and the pass filters do; the
+    one that stops and the one that panics do not -/
+example :
+    (Serve.allFilters cfg 0 1).map (fun sf => Spec.passesOn sf.2) = [true, true, true, true] ∧
+    (Serve.allFilters cfg 0 2).map (fun sf => Spec.passesOn sf.2) = [true, true, true, false, true] ∧
+    (Serve.allFilters cfg 0 3).map (fun sf => Spec.passesOn sf.2) = [true, true, true, false, true] ∧
+    Spec.firstBlocked (Serve.allFilters cfg 0 1) = 4 ∧ Spec.firstBlocked (Serve.allFilters cfg 0 2) = 3 ∧
+    Spec.firstBlocked (Serve.allFilters cfg 0 3) = 3 := by
+  decide
+
+/-- the iff, both sides evaluated, both directions inhabited.  Route 1: every filter passes on (a
+    replace filter and a middleware among them) and the route function runs, once.  Route 2: a filter
+    stops; route 3: a filter panics — the route function does not run, nor does the filter after the
+    one that did not pass on.  After the stop the filters before it come back in reverse order; after
+    the panic nothing comes back (recovery is off: the panic leaves `Dispatch`). -/
+example :
+    ((Serve.Stage.handler 1, false) ∈ pairs (Serve.serve E0 cfg .dispatch {} sr1)) ∧
+    (∀ sf ∈ Serve.allFilters cfg 0 1, Spec.passesOn sf.2 = true) ∧
+    (pairs (Serve.serve E0 cfg .dispatch {} sr1)).count (.handler 1, false) = 1 ∧
+    ¬ ((Serve.Stage.handler 2, false) ∈ pairs (Serve.serve E0 cfg .dispatch {} sr2)) ∧
+    ¬ (∀ sf ∈ Serve.allFilters cfg 0 2, Spec.passesOn sf.2 = true) ∧
+    ¬ ((Serve.Stage.handler 3, false) ∈ pairs (Serve.serve E0 cfg .serveDispatch {} sr3)) ∧
+    ¬ (∀ sf ∈ Serve.allFilters cfg 0 3, Spec.passesOn sf.2 = true) ∧
+    pairs (Serve.serve E0 cfg .dispatch {} sr1) =
+      [(.cfilter 1, false), (.cfilter 2, false), (.sfilter 3, false), (.rfilter 5, false), (.handler 1, false),
+       (.rfilter 5, true), (.sfilter 3, true), (.cfilter 2, true), (.cfilter 1, true)] ∧
+    pairs (Serve.serve E0 cfg .dispatch {} sr2) =
+      [(.cfilter 1, false), (.cfilter 2, false), (.sfilter 3, false), (.rfilter 7, false),
+       (.rfilter 7, true), (.sfilter 3, true), (.cfilter 2, true), (.cfilter 1, true)] ∧
+    pairs (Serve.serve E0 cfg .serveDispatch {} sr3) =
+      [(.cfilter 1, false), (.cfilter 2, false), (.sfilter 3, false), (.rfilter 9, false)] ∧
+    (Serve.serve E0 cfg .serveDispatch {} sr3).escaped = some "boom".toList := by
+  decide
+
+/-- the theorems instantiated: `C06_handler_iff` in both directions on the model's log -/
+example : (Serve.Stage.handler 1, false) ∈ pairs (Serve.serve E0 cfg .dispatch {} sr1) :=
+  (C06_handler_iff E0 cfg .dispatch {} sr1 1).1.mpr
+    ⟨.inl rfl, rfl, 0, [("i".toList, "7".toList)], "sel", by decide, by decide, by decide, by decide⟩
+example : ∀ f ∈ (Serve.routeX cfg 1).filters, Spec.passesOn f = true :=
+  (((C06_handler_iff E0 cfg .dispatch {} sr1 1).1.mp (by decide)).2.2.elim
+    (fun _ h => h.elim (fun _ h => h.elim (fun _ h => h.2.2.2))))
+example : (Serve.Stage.handler 2, false) ∉ pairs (Serve.serve E0 cfg .dispatch {} sr2) := fun h => by
+  obtain ⟨_, _, svc, ps, tag, hr, _, _, h3⟩ := (C06_handler_iff E0 cfg .dispatch {} sr2 2).1.mp h
+  exact absurd h3 (by decide)
+example : (Serve.Stage.handler 3, false) ∉ pairs (Serve.serve E0 cfg .serveDispatch {} sr3) := fun h => by
+  obtain ⟨_, _, svc, ps, tag, hr, _, _, h3⟩ := (C06_handler_iff E0 cfg .serveDispatch {} sr3 3).1.mp h
+  exact absurd h3 (by decide)
+
+/-- `C06_target_iff_all`, `C06_target_count_all` on the three chains (hypothesis `hd` by `decide`) -/
+def fs1 : List (Serve.Stage × Serve.Filter) := Serve.allFilters cfg 0 1
+def t1 : Serve.Target := ⟨.handler 1, [.write "one".toList]⟩
+def fs2 : List (Serve.Stage × Serve.Filter) := Serve.allFilters cfg 0 2
+def t2 : Serve.Target := ⟨.handler 2, [.write "two".toList]⟩
+def fs3 : List (Serve.Stage × Serve.Filter) := Serve.allFilters cfg 0 3
+def t3 : Serve.Target := ⟨.handler 3, [.write "three".toList]⟩
+example : (t1.stage, false) ∈ (Spec.chainLog fs1 t1 {}).1.map (fun ev => (ev.stage, ev.post)) :=
+  (C06_target_iff_all fs1 t1 {} (by decide)).1.mpr (by decide)
+example : (t2.stage, false) ∉ (Spec.chainLog fs2 t2 {}).1.map (fun ev => (ev.stage, ev.post)) := fun h =>
+  absurd ((C06_target_iff_all fs2 t2 {} (by decide)).1.mp h) (by decide)
+example : (t3.stage, false) ∉ (Spec.chainLog fs3 t3 {}).1.map (fun ev => (ev.stage, ev.post)) := fun h =>
+  absurd ((C06_target_iff_all fs3 t3 {} (by decide)).1.mp h) (by decide)
+example := C06_target_count_all fs1 t1 {} (by decide)
+example := C06_shape_all fs3 t3 {}
+/-- `C06_blocked_all`: the stopping filter 7 after three filters that pass on, filter 8 behind it;
+    the panicking filter 9 with filter 10 behind it -/
+example := C06_blocked_all ((Serve.allFilters cfg 0 2).take 3) (.rfilter 7) (fl 7 .stop [.writeHeader 403])
+  [(.rfilter 8, fl 8 .pass)] t2 {} (by decide) (by decide)
+example := C06_blocked_all ((Serve.allFilters cfg 0 3).take 3) (.rfilter 9) (fl 9 .pass [.panic "boom".toList])
+  [(.rfilter 10, fl 10 .pass)] t3 {} (by decide) (by decide)
+example : (Serve.allFilters cfg 0 2).take 3 ++ (.rfilter 7, fl 7 .stop [.writeHeader 403]) :: [(.rfilter 8, fl 8 .pass)] = fs2 := by
+  decide
+
+/-- propagation through replace AND middleware combined (`C06_propagation_all`, `C06_ctxAt_fold`):
+    the chain is entered with the route's parameters and selected path; the replace filter passes on
+    a new Request (its own attribute only — the attribute it set on the old Request is not visible —,
+    no parameters, no selected path) and a wrapped Response; the middleware adds an attribute and a
+    second wrapper; the route filter adds an attribute; the route function sees all of it.  The model's
+    own start events are exactly these. -/
+example :
+    let cx0 : Serve.Ctx := { params := [("i".toList, "7".toList)], selPath := "/a/{i}".toList }
+    let who := ("who".toList, "1".toList)
+    let m := ("m".toList, "2".toList)
+    let r := ("r".toList, "5".toList)
+    Spec.chainOf E0 cfg .dispatch sr1 = some (fs1, t1, cx0) ∧
+    (List.range 5).map (Spec.ctxAt fs1 cx0) =
+      [cx0, { attrs := [who], wrappers := [1] }, { attrs := [who, m], wrappers := [2, 1] },
+       { attrs := [who, m], wrappers := [2, 1] }, { attrs := [who, m, r], wrappers := [2, 1] }] ∧
+    (List.range 5).map (Spec.stageAt fs1 t1) = [.cfilter 1, .cfilter 2, .sfilter 3, .rfilter 5, .handler 1] ∧
+    (Serve.serve E0 cfg .dispatch {} sr1).log.filter (fun ev => !ev.post) =
+      [⟨.cfilter 1, false, [], [("i".toList, "7".toList)], "/a/{i}".toList, []⟩,
+       ⟨.cfilter 2, false, [who], [], [], [1]⟩, ⟨.sfilter 3, false, [who, m], [], [], [2, 1]⟩,
+       ⟨.rfilter 5, false, [who, m], [], [], [2, 1]⟩, ⟨.handler 1, false, [who, m, r], [], [], [2, 1]⟩] := by
+  decide
+example := C06_propagation_all fs1 t1 {}
+example := C06_ctxAt_fold fs1 {}
+example := C06_stageAt fs1 t1 4
+example := C06_order_all fs2 t2 {}
+example := C06_starts_served E0 cfg .dispatch {} sr1 fs1 t1
+  { params := [("i".toList, "7".toList)], selPath := "/a/{i}".toList } (by decide)
+example := C06_order_all_routed E0 cfg .serveDispatch (.inr rfl) {} sr3 0 3 [] "sel" rfl (by decide)
+example := C06_target_iff_served E0 cfg .dispatch {} sr2 (.handler 2) rfl (by decide)
+example := C06_passesOn_iff (fl 9 .pass [.panic "boom".toList]) []
+
+/-- the plain handler behind `HandleWithFilter`: container filters 1 (replace) and 2 (middleware)
+    pass on, it runs; through `Handle` it runs whatever the filters; with a stopping container
+    filter in front it does not -/
+example :
+    ((Serve.Stage.plain 0, false) ∈ pairs (Serve.serve E0 cfg .muxHandleF {} sr1)) ∧
+    ((Serve.Stage.plain 0, false) ∈ pairs (Serve.serve E0 { cfg with cfilters := [fl 1 .stop] } .serveHandle {} sr1)) ∧
+    ¬ ((Serve.Stage.plain 0, false) ∈ pairs (Serve.serve E0 { cfg with cfilters := [fl 1 .stop] } .serveHandleF {} sr1)) ∧
+    (Serve.serve E0 cfg .muxHandleF {} sr1).log.filter (fun ev => !ev.post) =
+      [⟨.cfilter 1, false, [], [], [], []⟩, ⟨.cfilter 2, false, [("who".toList, "1".toList)], [], [], [1]⟩,
+       ⟨.plain 0, false, [("who".toList, "1".toList), ("m".toList, "2".toList)], [], [], [2, 1]⟩] := by
+  decide
+example := (C06_plain_iff E0 cfg .muxHandleF {} sr1).1.mpr (.inr ⟨.inl rfl, by decide⟩)
+
+end C06AllExample
 
 /-! The frame condition (Lemmas/StateShape.lean): the code has exactly the state this property's model
     accounts for — no further package-level variable, struct type or field; constants as modelled. -/
